@@ -286,6 +286,7 @@ def summarize(results, tier):
                 elif isinstance(v, int):
                     probes[k] += v
             draws += r.get("draws", 0)
+            probes["boundary_seeking_resolutions"] += r.get("n_boundary", 0)
             if r.get("draws", 0) >= 1:
                 paths.add((r.get("trace_sig"), r.get("path_sig")))
             traces.add(r.get("trace_sig"))
